@@ -63,16 +63,21 @@ def main():
     if "--tier" in sys.argv:
         tier = sys.argv[sys.argv.index("--tier") + 1]
     seed = "/tmp/seed-%s" % prop
+    prefix = prop
+    if "--dir" in sys.argv:
+        seed = sys.argv[sys.argv.index("--dir") + 1]
+    if "--prefix" in sys.argv:
+        prefix = sys.argv[sys.argv.index("--prefix") + 1]
     for n in (1, 2):
         if not os.path.exists("%s/change_%d.diff" % (seed, n)):
             continue
         c = confirm(seed, n)
-        print("%s-%d confirm: %s" % (prop, n, json.dumps(c)[:500]))
+        print("%s-%d confirm: %s" % (prefix, n, json.dumps(c)[:500]))
         if not c["ok"]:
             continue
         ev = evaluate("%s/change_%d.diff" % (seed, n), checks, tier)
-        print("%s-%d checks: %s" % (prop, n, json.dumps(ev)[:900]))
-        dst = os.path.join(ROOT, "seeded", "%s-%d" % (prop, n))
+        print("%s-%d checks: %s" % (prefix, n, json.dumps(ev)[:900]))
+        dst = os.path.join(ROOT, "seeded", "%s-%d" % (prefix, n))
         os.makedirs(dst, exist_ok=True)
         shutil.copy("%s/change_%d.diff" % (seed, n), dst + "/patch.diff")
         shutil.copy("%s/demo_%d.py" % (seed, n), dst + "/demo.py")
@@ -86,7 +91,7 @@ def main():
             old = json.load(open(dst + "/meta.json"))
         hist = old.get("check_history", [])
         hist.append({"tier": tier, "results": ev})
-        meta.update({"id": "%s-%d" % (prop, n), "breaks_property": prop, "origin": "independent sub-agent given only the property text",
+        meta.update({"id": "%s-%d" % (prefix, n), "breaks_property": prop, "origin": "independent sub-agent given only the property text",
                      "confirmed": c, "ran": "tools/seed_pipeline.py: scratch worktree confirm (suite + demo with/without), then "
                      "git -C /repo apply; run.py <check> --tier %s; git -C /repo checkout -- ." % tier,
                      "check_results": ev, "check_history": hist,
